@@ -80,6 +80,13 @@ SEEDS = {
                  T(["L", "B", "-", "A", "-", "1M"]),
                  T(["P", "s", "A+,A+,B+", "*"]),
                  T(["P", "t", "B-,A-,A-", "*"])],
+    # a path over a hairpin link (A+ -> A-: same ends as its complement) whose
+    # CIGAR differs from its complement: which of the two readings the path
+    # took must not depend on whether the P or the L line came first
+    "P-hairpin": [T(["S", "A", "*"]), T(["S", "B", "*"]),
+                  T(["L", "A", "+", "A", "-", "3M2I"]),
+                  T(["L", "A", "-", "B", "+", "1M"]),
+                  T(["P", "p", "A+,A-,B+", "3M2I,1M"])],
     "O-repeat": [T(["S", "a", "4", "*"]), T(["S", "b", "4", "*"]),
                  T(["E", "e1", "a+", "a+", "2", "4$", "0", "2", "*"]),
                  T(["E", "e2", "a+", "b+", "2", "4$", "0", "2", "*"]),
@@ -142,6 +149,15 @@ def line_refs(line, kc):
           pair = [lf[1], lf[2], lf[3], lf[4]]
         else:
           pair = [lf[3], closure.inv(lf[4]), lf[1], closure.inv(lf[2])]
+        # ... and the overlap as read in the direction of the path (for a
+        # hairpin link both readings join the same ends; only the overlap
+        # tells them apart).  Compared between orders only: strip() removes
+        # it before the comparison with the reference model.
+        try:
+          al = gfapy.Alignment(lf[5], version="gfa1")
+          pair.append(str(al if o == "+" else al.complement()))
+        except Exception:
+          pair.append("?" + lf[5] + o)
       else:
         pair = ["?", str(o)]
       out.append([f, kc.key(t), pair])
@@ -241,8 +257,11 @@ def model_form(pred):
 def strip(ob):
   """Observation without what the model does not predict (collection names,
   ownership)."""
-  recs = [[k, refs, sorted(m for c, m in back)] for k, refs, back, own in
-          ob["records"]]
+  def unread(refs):
+    return sorted(([f, t, p[:4]] if f == "links" and isinstance(p, list)
+                   else [f, t, p] for f, t, p in refs), key=repr)
+  recs = [[k, unread(refs), sorted(m for c, m in back)]
+          for k, refs, back, own in ob["records"]]
   recs.sort(key=repr)
   return {"version": ob["version"], "names": ob["names"], "records": recs}
 
